@@ -237,6 +237,13 @@ class Exec:
         self.notes = []
         self.paths = 0
         self._funcs = {}
+        self._literals = {}
+        for n in self.tree.body:
+            if isinstance(n, ast.Assign) and len(n.targets) == 1 and isinstance(n.targets[0], ast.Name):
+                try:
+                    self._literals[n.targets[0].id] = (ast.literal_eval(n.value), n.value)
+                except (ValueError, SyntaxError):
+                    pass
         self._index(self.tree.body, '')
 
     def _index(self, body, prefix):
@@ -678,6 +685,16 @@ class Exec:
 
     def st_Assert(self, s, st):
         c = self.truthy(self.eval(s.test, st), st)
+        if 'AssertionError' in self.c.raises:
+            res = []
+            bad = st.clone()
+            bad.assume(z3.Not(c))
+            bad.path.append(f'L{s.lineno}:assert-fails')
+            if self.feasible(bad):
+                res.append((bad, ('raise', 'AssertionError', s.lineno)))
+            st.assume(c)
+            res.append((st, ('next',)))
+            return res
         self.safety(st, c, f'assert at line {s.lineno}', s)
         return [(st, ('next',))]
 
@@ -961,6 +978,8 @@ class Exec:
         if isinstance(v, float):
             return Val(TReal, z3.RealVal(repr(v)))
         if isinstance(v, str):
+            if len(v) == 1 and getattr(self.ms, 'char_strings', False):
+                return Val(TInt, z3.IntVal(ord(v)))  # strings are sequences of character codes
             return Val(TStr, sym.str_lit(v))
         raise OutOfSubset(f'constant {v!r}')
 
@@ -971,6 +990,14 @@ class Exec:
             return Val(st.out.ty, st.out.t)
         if spec and n.id in self.ms.folds:
             return self.ms.folds[n.id]
+        if n.id in getattr(self.ms, 'py_consts', {}):
+            return self.ms.py_consts[n.id](self, st)
+        if n.id in self._literals and n.id in getattr(self.ms, 'use_module_literals', ()):
+            val, node = self._literals[n.id]
+            if isinstance(val, (set, frozenset, tuple, list)):
+                elts = node.elts
+                return PyTuple([self.eval(e, st, spec) for e in elts])
+            return self.eval(node, st, spec)
         if n.id in self.ms.consts:
             ty = self.ms.consts[n.id].resolve()
             return Val(ty, z3.Const('glob_' + n.id, ty.sort()))
